@@ -11,7 +11,7 @@ CONSTANTS
   Hist = TRUE
   EmitMode = "settled"
 VIEW View
-INVARIANTS TypeOK OrderPreservedKF BatchBound AcceptedAreSurvivors QueueIsSuffix LossCounted LossExact SentCounted DrainCompleteKF
+INVARIANTS TypeOK OrderPreserved BatchBound AcceptedAreSurvivors QueueIsSuffix LossCounted LossExact SentCounted DrainComplete
 PROPERTIES DropOldest
 ACTION_CONSTRAINT Emit
 CHECK_DEADLOCK FALSE
